@@ -51,6 +51,9 @@ def _block(rng, depth, ind, open_marks):
         elif r < 0.40:   # well-formed region around a sub-block (maybe with the same marker nested)
             m = rng.choice(MARKS)
             lines.append(f'{ind}!$loki {m}')
+            if rng.random() < 0.4:   # the region starts with a pragma that belongs to the following call / loop
+                lines.append(ind + rng.choice(['!$acc kernels', '!$omp parallel do', '!$loki foo']))
+                lines += [f'{ind}call ext(x, y)'] if rng.random() < 0.5 else [f'{ind}do i = 1, n', f'{ind}  x = x + i', f'{ind}end do']
             lines += _block(rng, depth + 1, ind, open_marks + [m]) if depth < 2 else [f'{ind}y = x']
             lines.append(f'{ind}!$loki end {m}')
         elif r < 0.46:   # unmatched start or end
@@ -294,6 +297,13 @@ def concretise(ops, rng):
     return out
 
 
+def balance(ops):
+    """Append the direct detach calls that make a sequence of direct calls Balanced again."""
+    tail = [{'op': 'detach', 'what': 'regions', 'types': [], 'post': False, 'n': 0},
+            {'op': 'detach', 'what': 'pragmas', 'types': ['loop', 'call', 'decl'], 'post': True, 'n': 0}]
+    return list(ops) + tail
+
+
 def _exec_chunk(chunk):
     res = []
     for src, ops in chunk:
@@ -373,9 +383,11 @@ def run(ctx):
             else:
                 f_nest = tp.submit(gen_ops, ctx, 'nest', 8)
                 f_walk = tp.submit(gen_ops, ctx, 'walk', 8, 150 if quick else 3000, ctx.seed + 11)
-                nest, walk = f_nest.result(), f_walk.result()
+                f_direct = tp.submit(gen_ops, ctx, 'direct', 4)
+                nest, walk, direct = f_nest.result(), f_walk.result(), [balance(o) for o in f_direct.result()]
                 ctx.cover['op_sequences_nested_exhaustive'] = len(nest)
                 ctx.cover['op_sequences_random_walk'] = len(walk)
+                ctx.cover['op_sequences_direct_calls_exhaustive_len<=4'] = len(direct)
                 nrout = 12 if quick else 150
                 routines = [gen_routine(rng) for _ in range(nrout)]
                 tasks = []
@@ -385,6 +397,10 @@ def run(ctx):
                     tasks += [(src, concretise(o, rng)) for o in picks]
                 for i, o in enumerate(walk):
                     tasks.append((routines[i % nrout] if i % 3 else gen_routine(rng), o))
+                # direct attach/detach calls in every order (incl. crossing): all of them on some routines
+                for ri in range(1 if quick else 12):
+                    src = routines[-1 - ri]
+                    tasks += [(src, o) for o in (rng.sample(direct, 170) if quick else direct)]
                 ctx.cover['routines'] = nrout
             # execute on real routines while the model-checking runs are going
             if pool is None or len(tasks) < 20:
@@ -443,3 +459,23 @@ def run(ctx):
         'dataflow sets left on nodes are not part of C16 (structure, identities, text): counted as information, not a violation',
         'the export is an own recursion over node fields (body, else_body, bodies, default, pragma, pragma_post), ids = python identity',
     ]
+
+
+def selftest(ctx):
+    """Binding check of the trace validation: an honest case is accepted, corrupted recordings are rejected."""
+    import copy
+    src = gen_routine(random.Random(5))
+    ops = [{'op': 'enter', 'what': 'pragmas', 'types': ['loop', 'call', 'decl'], 'post': True, 'n': 0},
+           {'op': 'exit', 'what': '', 'types': [], 'post': False, 'n': 1}]
+    good = execute(src, ops)
+    bad1 = copy.deepcopy(good)
+    bad1['steps'][1]['obs'][1]['body'][0]['id'] = 9999          # a node was rebuilt
+    bad2 = copy.deepcopy(good)
+    bad2['steps'][0]['obs'][1]['body'].pop()                    # a node got lost while attached
+    bad3 = copy.deepcopy(good)
+    bad3['steps'][1]['text'] = 'deadbeef0000'
+    v = ctx.validate('Trace_AttachDetach', 'Trace_AttachDetach', [good, bad1, bad2, bad3])
+    want = [(True, 'ok'), (False, 'NothingLost:ids'), (False, 'NothingLost:shape'), (False, 'BalancedRestores:text')]
+    got = [(v[i][0], v[i][1]) for i in range(4)]
+    print('selftest C16', 'PASS' if got == want else f'FAIL {got}')
+    return 0 if got == want else 2
